@@ -2,7 +2,7 @@
    The closure is evaluated on the implementation on every run (trace, then serialize the same
    samples with the traced schema, then decode = interp inside Coq: the C01 oracle); the tracer
    model is compared with the crate in the C07 run. *)
-From Verif Require Import Tracer Coerce Coerce_proofs Accept Accept_proofs CoerceTable CoerceTable_proofs TracerTablesSpec Null_proofs Struct_proofs Project_proofs TableClosure.
+From Verif Require Import Tracer Coerce Coerce_proofs Accept Accept_proofs CoerceTable CoerceTable_proofs TracerTablesSpec Null_proofs Struct_proofs Project_proofs TableClosure Shapes_proofs Nested_order Nested_total Fits.
 
 (* Full-strength statement (kept visible); Excluded = the three documented exclusions *)
 Definition C06_full (accepts : list SField -> list Value -> Prop) (Excluded : Opts -> list Value -> Prop) : Prop :=
@@ -82,6 +82,41 @@ Theorem C06_table_column_accepts : forall o d SS n0 m s fs k tk lk fa v pr,
   exists n q, tk = TPrim n q /\ builder_accepts q pr = true.
 Proof. exact table_column_accepts. Qed.
 
+(* ---- closure at every depth, for every collection of samples ----
+   `fits o v t`: the tracer t has the shape of the sample v at every position - every field, tuple position, map key / value, variant
+   (by index AND name) of v is there -, t is nullable wherever v has a null, an Option or (through the projection theorem) a field
+   that another sample omits, and at every leaf t's primitive type is one whose builder accepts v's scalar (`builder_accepts`: the
+   numeric and string coercions chosen by the options are wide enough).
+   Whenever tracing a collection succeeds, EVERY sample fits the traced tracer.  First on the class Hom, then - since every collection
+   that traces is in the class (C07_success_puts_in_class) - for every collection in which no record repeats a key. *)
+Theorem C06_every_sample_fits_nested : forall o n d vs t,
+  Hom o n vs -> trace_seq' o d vs (Ok (TUnknown false)) = Ok t -> Forall (fun v => fits o v t) vs.
+Proof. exact fits_hom. Qed.
+
+Theorem C06_every_sample_fits : forall o d vs t,
+  Forall (ndk o) vs -> trace_seq' o d vs (Ok (TUnknown false)) = Ok t -> Forall (fun v => fits o v t) vs.
+Proof. exact fits_total. Qed.
+
+(* ... in particular the tracer behind a successful from_samples: the returned schema is the schema of a tracer that every sample fits *)
+Theorem C06_from_samples_fits : forall o vs fs, Forall (ndk o) vs -> from_samples o [] vs = Ok fs ->
+  exists root, trace_all o vs = Ok root /\ Forall (fun v => fits o v root) vs /\ to_schema o [] root = Ok fs.
+Proof. exact from_samples_fits. Qed.
+
+(* non-vacuity: nested records with an optional list of optional strings, an enum, a number that needs widening; the hypotheses hold
+   and the conclusion is not trivial (the traced tracer is a struct of a primitive, a list and a union) *)
+Definition c06_opts : Opts := {| o_allow_null := false; o_map_as_struct := true; o_large_list := true; o_large_utf8 := true; o_dict := false;
+                                 o_coerce := true; o_to_string := false; o_guess_dates := false; o_enums_str := false |}.
+Definition c06_n1 : Value := VStruct [(b "a", VInt I8 1); (b "l", VSome (VSeq [VSome (VStr (b "x")); VNone])); (b "e", VNewtypeVariant 1 (b "B") (VInt I32 5))].
+Definition c06_n2 : Value := VStruct [(b "a", VInt U16 300); (b "e", VUnitVariant 0 (b "A"))].
+Example C06_every_sample_fits_example :
+  Forall (ndk c06_opts) [c06_n1; c06_n2] /\
+  exists t, trace_seq' c06_opts 0 [c06_n1; c06_n2] (Ok (TUnknown false)) = Ok t /\
+            match t with TStruct false _ _ [(_, TPrim false (PI I64), _); (_, TList true (TPrim true (PStr true)), _); (_, TUnion false [Some _; Some _], _)] => True | _ => False end.
+Proof. split; [repeat constructor; cbn; intuition discriminate|]. eexists. split; [vm_compute; reflexivity|exact I]. Qed.
+
+Print Assumptions C06_every_sample_fits_nested.
+Print Assumptions C06_every_sample_fits.
+Print Assumptions C06_from_samples_fits.
 Print Assumptions C06_leaf_accepts_partial.
 Print Assumptions C06_leaf_null_nullable_partial.
 Print Assumptions C06_coerce_arms_match_model.
